@@ -417,4 +417,3 @@ func (x *Exec) tripCount(reg *region, phis []*ssa.Phi, init map[*ssa.Phi]AV, ste
 	}
 	return Poly{}, false
 }
-
